@@ -502,7 +502,19 @@ def correspondence(ctx):
                 name, fn = rng.choice([o for o in PUBLIC_OPS if o[0] in (
                     "loose_period_merge", "period_merge", "remove_static_details", "summarize", "split_first",
                     "merge", "coalesce")])
+            rst = rng.getstate()
             st, r = call(fn, t, rng)
+            if st == "ok" and isinstance(r, Triangle) and rng.random() < 0.35:
+                # sequence stream: the same call on the same object again must give the same cells
+                # (state carried between calls: caches, mutable defaults, aliased buffers)
+                after = rng.getstate()
+                rng.setstate(rst)
+                st2, r2 = call(fn, t, rng)
+                rng.setstate(after)
+                if st2 != "ok" or not isinstance(r2, Triangle) or w_cells(r2.cells) != w_cells(r.cells):
+                    ctx.fail(f"public operation {name} gives a different result when repeated on the same triangle",
+                             {"cells": w_cells(cells), "ops": names + [name]},
+                             {"first": w_cells(r.cells)[:3], "second": (w_cells(r2.cells)[:3] if st2 == "ok" and isinstance(r2, Triangle) else str(r2))})
             if st != "ok" or not isinstance(r, Triangle):
                 ctx.count(f"anyop/{name}/err")
                 continue
